@@ -444,13 +444,20 @@ struct Server {
     shared: Arc<Shared>,
 }
 
+const CONN_TIMEOUT_MS: u64 = 1500;
+const LONG_GAP_US: u64 = 2_300_000;
+
 fn start_server(threads: usize) -> Server {
     for _ in 0..20 {
         let port = {
             let l = TcpListener::bind("127.0.0.1:0").expect("bind");
             l.local_addr().unwrap().port()
         };
+        // a connection timeout is configured, as a deployed app would have one: it bounds the wait for a request and must not
+        // outlive the upgrade (a few random scripts pause for longer than it in the middle of a frame; added after the seeded
+        // change `C11-r5-request-stream-timeout-...` - the timeout left on the upgraded socket - was missed)
         let app: App<Shared> = App::new_with_config(threads, Shared::default())
+            .with_connection_timeout(Some(Duration::from_millis(CONN_TIMEOUT_MS)))
             .with_websocket_route("/ws", websocket_handler(ws_handler));
         let shared = app.get_state();
         let (tx, rx) = std::sync::mpsc::channel::<bool>();
@@ -754,6 +761,7 @@ fn run_case(case: &Case, srv: &Server, rng: &mut Rng) -> Value {
         }
         let mut off = 0usize; // stream offset written so far
         let mut write_failed = false;
+        let mut long_gap_done = false; // a pause longer than the connection timeout is taken once per script
         'frames: for f in &case.frames {
             if off >= case.sent {
                 break;
@@ -772,7 +780,9 @@ fn run_case(case: &Case, srv: &Server, rng: &mut Rng) -> Value {
                     break 'frames;
                 }
                 if pi > 0 {
-                    if case.gap_us > 0 {
+                    if case.gap_us >= 1_000_000 {
+                        if !long_gap_done { long_gap_done = true; thread::sleep(Duration::from_micros(case.gap_us)); }
+                    } else if case.gap_us > 0 {
                         thread::sleep(Duration::from_micros(case.gap_us));
                     }
                     ctx.log(json!({"e": "cpiece", "upto": off + (*b - from)}));
@@ -1153,7 +1163,7 @@ fn rand_case(idx: usize, rng: &mut Rng, maxframes: usize, maxpay: usize) -> Case
         _ => ("none".to_string(), vec![]),
     };
     Case { idx, key: rand_key(rng), nb, echo: rng.chance(1, 2), frames, sent, end, exp: None,
-           gap_us: *rng.pick(&[0u64, 0, 200, 700, 1500]), full: true, pre, push,
+           gap_us: if rng.chance(1, 30) { LONG_GAP_US } else { *rng.pick(&[0u64, 0, 200, 700, 1500]) }, full: true, pre, push,
            hsv: if rng.chance(1, 10) { rng.pick(&["lower", "upper", "mixed", "tokenUpper", "tokenMixed", "connLower"]).to_string() } else { "canon".to_string() },
            late_ms: 0, exp_alt: vec![] }
 }
